@@ -427,6 +427,9 @@ class InventoryNodeBase(InventoryBase, _HasName):
 
     @classmethod
     def _obj_from_dict(cls, obj_dict):
+        # Optional, but it can't have a dataclass default because of where it sits in the field order.
+        # The writers leave a `None` parent out like any other unset optional field.
+        obj_dict.setdefault("parent_id", None)
         # Bad entry, ignore
         # TODO: Check on these. might be symlinks or something.
         if obj_dict.get("type") == "-1":
